@@ -462,3 +462,43 @@ func TestFailedSetLeavesCandidateUntouched(t *testing.T) {
 		t.Fatalf("expected mtu 9000, got %d", got)
 	}
 }
+
+func TestFailedStartupLeavesRunningUntouched(t *testing.T) {
+	cd := newTestConfigManager(t)
+	cd.disableVersions = true
+	before, _ := cd.GetRunning()
+
+	colliding := `
+interfaces:
+  eth1:
+    name: eth1
+    enabled: true
+subscriber-groups:
+  groups:
+    a:
+      vlans:
+        - svlan: "100"
+          cvlan: any
+          access-types: [ipoe]
+          parent-interface: eth1
+    b:
+      vlans:
+        - svlan: "100"
+          cvlan: any
+          access-types: [ipoe]
+          parent-interface: eth1
+`
+	path := filepath.Join(t.TempDir(), "startup.yaml")
+	if err := os.WriteFile(path, []byte(colliding), 0644); err != nil {
+		t.Fatal(err)
+	}
+	if err := cd.ApplyStartupConfig(path); err == nil {
+		t.Fatal("a start-up file with colliding subscriber groups must be refused")
+	}
+	if after, _ := cd.GetRunning(); after != before {
+		t.Fatal("a refused start-up configuration must not be published as running")
+	}
+	if _, ok := cd.LookupSubscriberGroup(100, 7); ok {
+		t.Fatal("the subscriber-group index must not be built from a refused configuration")
+	}
+}
